@@ -1,6 +1,6 @@
 """Confirm seeded changes produced by independent sub-agents and run our checks against them.
 
-usage: eval_seed.py <PID> <outdir> [--no-tests] [--keep]
+usage: eval_seed.py <PID> <outdir> [--no-tests] [--offset N]
 For each patch<k>.diff in outdir:
   1. fresh scratch worktree of /repo HEAD under /tmp (removed afterwards)
   2. demo<k>.py on the clean tree must exit 0; after `git apply` it must exit != 0
@@ -72,6 +72,7 @@ def run_tests(wt, targets):
 def main():
     pid, outdir = sys.argv[1], sys.argv[2]
     no_tests = "--no-tests" in sys.argv
+    offset = int(sys.argv[sys.argv.index("--offset") + 1]) if "--offset" in sys.argv else 0  # second seeding round: k + offset
     results = []
     ks = sorted(int(m.group(1)) for f in os.listdir(outdir) if (m := re.match(r"patch(\d+)\.diff$", f)))
     for k in ks:
@@ -114,7 +115,7 @@ def main():
             rec["confirmed"] = confirmed
             rec["detected"] = rc == 1 if False else rec["check_rc"] == 1
             if confirmed and rec.get("tests_ok") is True:
-                dst = os.path.join(VERIF, "seeded", f"{pid}-{k}")
+                dst = os.path.join(VERIF, "seeded", f"{pid}-{k + offset}")
                 os.makedirs(dst, exist_ok=True)
                 shutil.copy(patch, os.path.join(dst, "patch.diff"))
                 shutil.copy(demo, os.path.join(dst, "demo.py"))
